@@ -94,11 +94,14 @@ pub struct PeerSpec {
     pub silent_from: Option<usize>,
     /// the peer's j-th output datagram is replaced by an ERROR, after which it is silent
     pub error_at: Option<usize>,
+    /// which message the peer's / stray ERROR packets carry (0 = short ASCII; others = long, multi-byte characters
+    /// at different alignments)
+    pub error_text: u8,
 }
 
 impl PeerSpec {
     pub fn conformant(timer_ns: u64) -> PeerSpec {
-        PeerSpec { ack_every: 0, timer_ns, retries: 12, dally: false, silent_from: None, error_at: None }
+        PeerSpec { ack_every: 0, timer_ns, retries: 12, dally: false, silent_from: None, error_at: None, error_text: 0 }
     }
     pub fn is_plain(&self) -> bool {
         self.silent_from.is_none() && self.error_at.is_none()
@@ -480,7 +483,7 @@ impl Core {
             }
             Stray::Oack => (wire::enc_oack(&[]), 0, "stray-oack"),
             Stray::Junk => (vec![0, 9, 1, 2, 3], 0, "stray-junk"),
-            Stray::Error => (wire::enc_error(0, b"injected"), 0, "stray-error"),
+            Stray::Error => (wire::enc_error(0, &error_text(self.spec.peer.error_text)), 0, "stray-error"),
         }
     }
 
@@ -503,7 +506,7 @@ impl Core {
                 self.rules_fired += 1;
                 self.peer_muted = true;
                 self.peer.abort();
-                o = Out { bytes: wire::enc_error(0, b"peer gives up"), is_data: false, abs: 0 };
+                o = Out { bytes: wire::enc_error(0, &error_text(self.spec.peer.error_text)), is_data: false, abs: 0 };
             }
             let idx = self.idx_p2w;
             self.idx_p2w += 1;
@@ -739,6 +742,18 @@ impl Core {
 
     pub fn peer_bytes(&self) -> Option<&[u8]> {
         self.peer.received()
+    }
+}
+
+/// ERROR message variants: peers may send any text; long valid UTF-8 with a multi-byte character at various offsets
+pub fn error_text(kind: u8) -> Vec<u8> {
+    match kind {
+        0 => b"peer gives up".to_vec(),
+        k => {
+            let pre = [0usize, 31, 62, 63, 64, 127, 254, 255, 256][(k as usize - 1) % 9];
+            let ch = ["\u{e9}", "\u{6587}", "\u{1F600}"][(k as usize - 1) / 9 % 3];
+            format!("{}{}", "a".repeat(pre), ch.repeat(40)).into_bytes()
+        }
     }
 }
 
